@@ -867,6 +867,17 @@ func (B *Bounds) helperFacts(caller *boundsFn, callee *ssa.Function, args []ssa.
 		return nil
 	}
 	entry := callee.Blocks[0]
+	// `return <comparison>`: the result *is* the comparison
+	if ret, isRet := entry.Instrs[len(entry.Instrs)-1].(*ssa.Return); isRet && len(callee.Blocks) == 1 && len(ret.Results) == 1 {
+		cbf := B.of(callee)
+		var out []aff
+		for _, f := range cbf.condFacts(ret.Results[0], truth, depth+1) {
+			if g, ok := caller.substParams(f, callee, args); ok {
+				out = append(out, g)
+			}
+		}
+		return out
+	}
 	ifi, ok := entry.Instrs[len(entry.Instrs)-1].(*ssa.If)
 	if !ok {
 		return nil
